@@ -44,11 +44,13 @@ PROPS["C19"] = dict(
     jobs=lambda tier: [dict(variant="rel"), dict(variant="asan")] if tier == "quick" else [dict(variant="rel")],
     rule="one case = an arc of consecutive generator steps from an oracle-computed start state (every step checked: next state, "
          "range, RFC double expression, exact floor when s'*maxv < 2^53), a block of random (state,maxv) pairs, or a seeding probe; "
+         "plus rounding-sensitive pairs constructed by modular inverse (s'*maxv = +-r mod 2^31-1, |r|<=16, maxv in 2^22..255*50000: every maxv in thorough, every 16th in quick) where the double expression and an exact floor can disagree; "
          "all cases are non-trivial; distinct by construction (random seeds deduplicated by value)",
     exhaustive={"quick": False, "thorough": True},
     exhaustive_subspaces={"thorough": ["all 2^31-2 states of the cycle, in 64 contiguous arcs"], "quick": []},
     budget_s={"quick": 600, "thorough": 3600},
-    require_counters={"quick": {"prng_steps_checked": 2 * 200000000}, "thorough": {"prng_steps_checked": 2147483646, "full_cycle_walked": 1}},
+    require_counters={"quick": {"prng_steps_checked": 2 * 200000000, "pairs_where_the_double_expression_differs_from_the_exact_floor": 1000},
+                      "thorough": {"prng_steps_checked": 2147483646, "full_cycle_walked": 1, "pairs_where_the_double_expression_differs_from_the_exact_floor": 100000}},
     assumptions=["maxv values are drawn from 1..255*50000, the range the matrix construction can request"],
 )
 
